@@ -553,6 +553,30 @@ def run_failing_lines(ctx, log, budget=200000):
                         session=s, failing_line=f, observed=(o if len(o) < 900 else o[:900])[:900], expected=" ;; ".join(base[pi])[:900])
         elif any(not x.startswith("ERR") for x in failed):
             ctx.violate("a line that must fail did not fail", session=s, failing_line=f, observed=" ;; ".join(failed)[:300])
+    # long sessions: hundreds of lines, a failing line of every kind every few lines, empty blocks in between; the
+    # successful lines answer as in the session without the failing ones, and the last line sees every declaration
+    for n in ((150,) if ctx.quick else (150, 600, 2000)):
+        good, withf = [], []
+        for i in range(n):
+            ln = ["stel v%d = %d" % (i, i), "v%d + a" % i, "a = a + 1; a", "als a > 1000000 { }", "stel a%d = a; { stel tijdelijk = a%d }" % (i, i)][i % 5] if i else "stel a = 0"
+            good.append(ln)
+            withf.append(ln)
+            if i % 3 == 2:
+                withf.append(PURE_FAILING_LINES[(i // 3) % len(PURE_FAILING_LINES)])
+        last = "v5 + v%d + a" % (((n - 1) // 5) * 5)
+        o_good = vlib.nlh("session", ["%d %s" % (budget, " ".join(vlib.hexs(l) for l in good + [last]))], tag=ctx.prop.lower() + "fl2", timeout=600)[0]
+        o_with = vlib.nlh("session", ["%d %s" % (budget, " ".join(vlib.hexs(l) for l in withf + [last]))], tag=ctx.prop.lower() + "fl2", timeout=600)[0]
+        a_, b_ = obs_lines(o_good), obs_lines(o_with)
+        succ = [x for x, l in zip(b_, withf + [last]) if not (l in PURE_FAILING_LINES)]
+        ctx.seen(("long-session", n))
+        ctx.count("long-session-lines", len(withf))
+        want_last = "OK i%d" % (5 + ((n - 1) // 5) * 5 + len([1 for i in range(n) if i and i % 5 == 2]))
+        if o_good.startswith("PANIC") or o_good.startswith("CRASH") or not a_ or not a_[-1].startswith(want_last):
+            ctx.violate("a long retained session does not answer its last line as one growing program would", session=["(%d lines)" % len(good), last], observed=(a_[-1] if a_ else o_good)[:200], expected=want_last)
+        elif succ != a_:
+            k = next((j for j, (x, y) in enumerate(zip(succ, a_)) if x != y), min(len(succ), len(a_)))
+            ctx.violate("in a long retained session the failing lines changed what a later line produces", session=["(%d lines, a failing line after every third)" % len(withf), "first differing successful line: #%d" % k],
+                        observed=(succ[k] if k < len(succ) else "(missing)")[:200], expected=(a_[k] if k < len(a_) else "(missing)")[:200])
     log("failing-line family: %d sessions (each of %d failing lines at two positions and three times, after %d different beginnings)" % (len(sessions), len(PURE_FAILING_LINES), len(SESSION_PRE)))
 
 
